@@ -352,6 +352,85 @@ def _cond_norm(fn, obj, v):
     return res[0] == 0 and all(res[k] == 1 for k in res if k)
 
 
+def cap_arg_rule(rep, u, fn, cap=4):
+    """R-CAPARG: a digit-level primitive is told how many digits its destination array has.  When a bn-level routine hands it
+    X->num, the count it passes is X->count, X->digits (<= count by the representation invariant), or a value that is
+    <= X->count whenever the call is reached: the routine is evaluated with X->count = 4 for every X->digits 0..4, other
+    operands of 0..6 digits and scalar arguments 0..300, and the count argument is read at the call."""
+    import itertools
+    from rules import r_stride
+    n = 0
+    for pos, root, c, ps in fn.calls():
+        if not (c.get("fn") or "").startswith("bn_digits_"):
+            continue
+        cal = u.fn(c["fn"])
+        for i, a in enumerate(c["args"][:-1]):
+            a0 = core.strip_casts(a)
+            if not (a0.get("k") == "mem" and a0.get("f") == "num"):
+                continue
+            # only destinations: the callee's parameter is a pointer to non-const digits
+            if cal is not None and i < len(cal.params):
+                pt = u.type(cal.params[i]["t"])
+                if pt["k"] == "ptr" and u.type(pt["to"]).get("const"):
+                    continue
+            if cal is None or i + 1 >= len(cal.params) or u.type(cal.params[i + 1]["t"])["k"] != "int":
+                continue                    # the next argument is not a count
+            cnt = core.strip_casts(c["args"][i + 1])
+            objn = core.strip_casts(a0["b"])
+            if objn.get("k") != "ref" or objn.get("dk") != "parm":
+                continue
+            obj = objn["n"]
+            n += 1
+            inst = "count-arg:%s(%s)#%d" % (c["fn"], obj, n)
+            desc = "%s: the digit count passed with %s->num to %s never exceeds %s->count" % (fn.name, obj, c["fn"], obj)
+            if key(cnt) in (obj + "->count", obj + "->digits"):
+                rep.proved("R-CAPARG", fn, inst, desc, "passes %s" % key(cnt), c.get("ln"))
+                continue
+            over = None
+            reached = 0
+            hidden = None
+            for d, od, sc in itertools.product(range(0, cap + 1), (0, 2, cap, cap + 2), (0, 1, cap - 1, cap, cap + 1, 64, 300)):
+                pe = r_stride.PE(u)
+                pe.wrap = True
+                bind = {obj: 0x1000, obj + "->count": cap, obj + "->digits": d, obj + "->num": 0x2000}
+                for p in fn.params:
+                    if p["n"] == obj:
+                        continue
+                    if u.type(p["t"])["k"] == "ptr":
+                        bind.update({p["n"]: 0x3000, p["n"] + "->digits": od, p["n"] + "->count": 2 * cap, p["n"] + "->num": 0x4000})
+                    else:
+                        bind[p["n"]] = sc
+                for j in range(16 * 2 * cap):                      # every digit width: element j of num[] reads as 1
+                    pe.memory[0x2000 + j] = 1
+                ev, ret = pe.trace(fn, bind)
+                hit = False
+                for e, b in ev:
+                    if any(x is c for x, _ in walk(e)):
+                        hit = True
+                        vs = pe.evals(cnt, b, 0)
+                        if len(vs) == 1 and isinstance(vs[0][0], int):
+                            reached += 1
+                            if vs[0][0] > cap:
+                                over = over or "with %s->count = %d, %s->digits = %d, other operands of %d digits and scalar arguments %d the call is " \
+                                    "reached with count %d: the primitive may write (or report a carry from) digit %d of a %d-digit number" % (
+                                        obj, cap, obj, d, od, sc, vs[0][0], vs[0][0] - 1, cap)
+                        else:
+                            hidden = hidden or "count not evaluable at the call"
+                if not hit and isinstance(ret, str) and ev:
+                    # the walk stopped early: harmless only if the call can no longer be reached from there
+                    last = ev[-1][0]
+                    lb = next((b_ for b_ in fn.reachable_blocks() if any(e is last for e in fn.blocks[b_].elems)), None)
+                    if lb is None or pos[0] in fn.reach_from([lb]):
+                        hidden = hidden or ret
+            if over:
+                rep.violated("R-CAPARG", fn, inst, desc, over, c.get("ln"))
+            elif hidden or not reached:
+                rep.undecided("R-CAPARG", fn, inst, desc, hidden or "call never reached on the grid", c.get("ln"))
+            else:
+                rep.proved("R-CAPARG", fn, inst, desc, "count %s <= %d in all %d grid cases that reach the call" % (key(cnt), cap, reached), c.get("ln"))
+    return n
+
+
 def norm_rule(rep, fn):
     """R-NORM: `digits` is the exact number of significant digits - bn_is_zero, bn_cmp and bn_calc_bits read it as such and
     every arithmetic routine re-derives it with bn_digits_calc_digits.  A store to X->digits through a bn_p parameter is
@@ -428,7 +507,7 @@ def run(rep, tier):
     us = driver.load_units(specs)
     rep.use_units(us)
     first = True
-    n_err = n_ts = n_div = n_sh = n_carry = n_dim = n_fresh = n_norm = 0
+    n_err = n_ts = n_div = n_sh = n_carry = n_dim = n_fresh = n_norm = n_cap = 0
     for (l, d, w) in cs:
         u = us[l]
         S, _ = r_err.status_functions(u)
@@ -441,13 +520,15 @@ def run(rep, tier):
             c = div_rule(rep, fn)
             e = shift_rule(rep, fn)
             width_rule(rep, fn, w)
-            cc = r_carry.check(rep, fn)
+            cc = r_carry.check(rep, fn) + r_carry.check_addends(rep, fn)
             wide_shift_rule(rep, fn)
             memsafe.tail_fill_rule(rep, fn)
             memsafe.unguarded_write_rule(rep, fn)
             nn_ = norm_rule(rep, fn)
+            nca_ = cap_arg_rule(rep, u, fn)
             if first:
                 n_norm += nn_
+                n_cap += nca_
             nf_ = r_loopvar.check(rep, [fn])
             if first:
                 n_fresh += nf_
@@ -470,6 +551,7 @@ def run(rep, tier):
     rep.floor("bit/byte dimensioned expressions", n_dim, 20)
     rep.floor("per-iteration temporaries read in loops", n_fresh, 3)
     rep.floor("stores to ->digits", n_norm, 8)
+    rep.floor("destination (num, count) arguments", n_cap, 12)
     rep.floor("pure-result three-operand routines", alias_rule(rep, us[cs[0][0]]), 2)
     return driver.finish(
         rep, "other",
